@@ -273,7 +273,11 @@ def classify(results, wanted, stdout, prop, also_owns=()):
                     info["safety_ok"] += 1
             elif status == "Failure":
                 low = clean.lower()
-                if cat == "unwind" or "unwinding assertion" in low:
+                if (cat == "unwind" or "unwinding assertion" in low) and short.startswith("c09_") and ("retry" in str(c.get("function", "")) or "collection/retry.rs" in str(loc.get("file"))):
+                    # C09's harnesses bound the number of obstructions (N + K): the retry loop not terminating within the
+                    # unwind bound IS the refutation of "the acquisition nevertheless finishes"
+                    refuted.append({"harness": short, "obligation": "C09_completes_within_the_stated_bound", "description": "C09_completes_within_the_stated_bound (%s)" % clean, "location": where})
+                elif cat == "unwind" or "unwinding assertion" in low:
                     undecided.append((short, "unwinding bound too small: %s at %s" % (clean, where)))
                 elif "unsupported" in low or "unstable vtable" in low or "not currently supported" in low or "is not supported" in low:
                     undecided.append((short, "unsupported construct reached: %s at %s" % (clean, where)))
